@@ -744,6 +744,49 @@ except Exception:
 """
 
 
+TEXT_MEMBER_SUFFIXES = (".xml", ".xhtml", ".html", ".htm", ".opf", ".ncx", ".rels", ".txt", ".css", ".svg", ".vml", ".json", ".smil")
+
+
+def container_member_cases(repo, ext, raw, max_members=40, fixtures=2):
+    """ZIP-container formats (EPUB, OOXML, ODF ...): the smallest fixtures of the format with the hostile text placed in EACH
+    text member in turn -- as the whole member, just before the member's last closing tag, and right after its first tag -- and once
+    in all of them (parts the package's own index files name keep their role, only their content turns hostile)."""
+    import zipfile
+    files = sorted(glob.glob(os.path.join(repo, f"sharepoint2text/tests/resources/*/*.{ext}")), key=os.path.getsize)[:fixtures]
+    for f in files:
+        try:
+            zin = zipfile.ZipFile(f)
+            members = [(i, zin.read(i.filename)) for i in zin.infolist()]
+        except Exception:  # noqa  (not a ZIP container)
+            continue
+        texty = [i.filename for i, b in members if i.filename.lower().endswith(TEXT_MEMBER_SUFFIXES) and len(b) < 200_000 and i.filename != "mimetype"]
+        texty.sort(key=lambda n: (n.count("/") == 0 and n.startswith("["), len(n)))
+        texty = texty[:max_members]
+
+        def rebuild(change):
+            out = io.BytesIO()
+            with zipfile.ZipFile(out, "w") as z:
+                for i, b in members:
+                    nb = change(i.filename, b)
+                    z.writestr(i.filename, nb, compress_type=zipfile.ZIP_STORED if i.filename == "mimetype" else zipfile.ZIP_DEFLATED)
+            return out.getvalue()
+
+        def inside(b):
+            k = b.rfind(b"</")
+            return b + raw if k < 0 else b[:k] + raw + b[k:]
+
+        def after_first_tag(b):
+            k = b.find(b">", b.find(b"<", b.find(b"?>") + 1 if b.lstrip().startswith(b"<?xml") else 0))
+            return raw + b if k < 0 else b[:k + 1] + raw + b[k + 1:]
+
+        base = os.path.basename(f)
+        for name in texty:
+            yield f"{base}: member {name} := hostile text", rebuild(lambda n, b, name=name: raw if n == name else b)
+            yield f"{base}: hostile text before the last closing tag of member {name}", rebuild(lambda n, b, name=name: inside(b) if n == name else b)
+            yield f"{base}: hostile text after the first tag of member {name}", rebuild(lambda n, b, name=name: after_first_tag(b) if n == name else b)
+        yield f"{base}: hostile text before the last closing tag of every text member", rebuild(lambda n, b: inside(b) if n in texty else b)
+
+
 def regex_probe(h, repo):
     """Replay of a `regex-eda-pump` obligation: the pumping text of the static witness, lengthened so that an exponential matcher
     cannot finish, (1) on the REAL compiled pattern object of the module, then (2) through the registered extractors of that module
@@ -786,6 +829,23 @@ def regex_probe(h, repo):
                                        "pattern": h["pattern"], "line": h["line"], "pump": h["pump"], "times": k},
                             "expected": "terminates (extraction results or an ExtractionError)",
                             "observed": f"no result within 40 s (child process killed): exponential backtracking of the pattern at {h['file']}:{h['line']}"}
+        # (2b) container formats: the hostile text inside each text member of the smallest fixtures of the format (one child per extractor)
+        seen_fn = set()
+        for kk, fn in exts:
+            if fn in seen_fn:
+                continue
+            seen_fn.add(fn)
+            try:
+                cases = list(container_member_cases(repo, kk, raw))
+            except Exception:  # noqa  (fixtures that cannot be re-packed: next level)
+                cases = []
+            if not cases:
+                continue
+            r = batch_probe(repo, modname, fn, f"x.{kk}", cases, single_timeout=40, per_case=0.1)
+            if r is not None:
+                r["inputs"].update({"pattern": h["pattern"], "line": h["line"], "pump": h["pump"], "times": k, "hostile_text": text[:160]})
+                r["observed"] += f": exponential backtracking of the pattern at {h['file']}:{h['line']}"
+                return r
         # (3) functions of the module that use the pattern and take a single str / bytes argument
         try:
             tree = ast.parse(open(os.path.join(repo, h["file"])).read())
@@ -829,7 +889,9 @@ def _mime_spellings(table):
             if v not in seen:
                 seen.add(v)
                 out.append(v)
-    for v in ("application/x-unknown", "application/octet-stream", "", "/", "application", "APPLICATION/OCTET-STREAM", "text", ";", "a/b;c=d"):
+    mains = sorted({k.partition("/")[0] for k in keys if "/" in k})
+    for v in [m + "/x-unknown-c01" for m in mains] + [m + "/" for m in mains[:2]] + ["application/x-unknown", "application/octet-stream", "", "/", "application",
+                                                                                      "APPLICATION/OCTET-STREAM", "text", ";", "a/b;c=d"]:
         if v not in seen:
             seen.add(v)
             out.append(v)
